@@ -29,7 +29,7 @@ TIERS = {
                  "abort_den": 3},
 }
 RULE = ("Scenario = (user-object kind x how tensors are held x which require grad x function kind "
-        "[method, pre-built PureFunction, sibling, multi-sibling] x history of 1-4 operations on the same objects "
+        "[method, pre-built PureFunction, sibling, multi-sibling, callable object wrapping the actor] x history of 1-4 operations on the same objects "
         "[forward of a functional+method; backward / graph-recording backward / second backward of any live result; "
         "each optionally inside enable_debug/disable_debug wrappers and inside 0-3 harness-opened nested "
         "substitutions with identical or fresh tensors]). One fault-free reference execution counts the N entries "
@@ -68,7 +68,7 @@ def draw_scenario(cs, cfg):
     sc["family"] = cs.weighted([3, 1], "family")
     if sc["family"] == 0:
         sc["kind"] = cs.draw(len(AC.ALL_KINDS), "kind")
-        sc["fkind"] = ["method", "pf", "sibling", "multisibling"][cs.weighted([4, 3, 2, 1], "fkind")]
+        sc["fkind"] = ["method", "pf", "sibling", "multisibling", "callable"][cs.weighted([4, 3, 2, 1, 2], "fkind")]
         sc["kind2"] = cs.draw(len(AC.ALL_KINDS), "kind2") if sc["fkind"] == "multisibling" else None
     else:
         sc["kind"] = cs.draw(len(AC.LO_KINDS), "lokind")
@@ -240,6 +240,7 @@ def build_env(sc):
     env.s2 = torch.tensor(0.9, dtype=AC.DT).requires_grad_(sc["rgs"])
     env.y0 = vals["y0"].clone()
     env.pfs = {}
+    env.proxies = {}
     env.pool = []       # live results: scalar losses
     env.poolinfo = []
     return env
@@ -279,7 +280,12 @@ def get_fcn(env, mname, allow_multi=True):
     key = (fk, mname)
     if key in env.pfs:
         return env.pfs[key]
-    if fk == "pf":
+    if fk == "callable":
+        # the functional is handed a callable object (EditableModule / nn.Module) wrapping the actor
+        if key not in env.proxies:
+            env.proxies[key] = AC.call_proxy(a, mname)
+        return env.proxies[key]
+    elif fk == "pf":
         pf = get_pure_function(m)
     elif fk == "sibling" or (fk == "multisibling" and not allow_multi):
         @make_sibling(m)
@@ -304,7 +310,7 @@ def nest_handle(env, spec):
         return (lambda new: A.uselinopparams(*new)), (lambda: list(A.getlinopparams()))
     mname = method_name_of(spec)
     f = get_fcn(env, mname, allow_multi=multi_ok(spec))
-    if env.sc["fkind"] == "method":
+    if env.sc["fkind"] in ("method", "callable"):
         key = ("nestpf", mname)
         if key not in env.pfs:
             env.pfs[key] = get_pure_function(f)
